@@ -19,27 +19,42 @@ func VerifC06bMerge(k int) {
 	verifrt.Assert(err == nil, "query")
 	global := mapr.NewGlobalGroupSet()
 	agg := NewAggregate("srv", q, global)
-	lastFailed := false
+	keys := []string{"k1", "k2", "k3"}
+	var sent []int
+	lastMerged := -1 // index of the last message whose merge went through
 	for i := 0; i < k; i++ {
+		key := verifrt.Choose("group", len(keys))
+		sent = append(sent, key)
 		inFlight := verifrt.Bool("another-merge-in-flight")
 		if inFlight {
 			global.VerifTakeSemaphore()
 		}
-		err := agg.Aggregate("k∥1∥count(x)≔1∥")
+		err := agg.Aggregate(keys[key] + "∥1∥count(x)≔1∥")
 		verifrt.Assert(err == nil, "Aggregate failed")
 		if inFlight {
 			global.VerifReleaseSemaphore()
+		} else {
+			lastMerged = i
 		}
-		lastFailed = inFlight
 	}
-	total := 0
-	if set, ok := global.VerifSets()["k"]; ok {
-		total = int(set.FValues["count(x)"])
+	got := make([]int, len(keys))
+	for j, key := range keys {
+		if set, ok := global.VerifSets()[key]; ok {
+			got[j] = int(set.FValues["count(x)"])
+		}
 	}
-	if total != k {
+	// every message up to the last successful merge is in the global result exactly once
+	want := make([]int, len(keys))
+	for i := 0; i <= lastMerged; i++ {
+		want[sent[i]]++
+	}
+	for j := range keys {
+		verifrt.Assert(got[j] == want[j], "a partial result is counted more than once, or lost although a later merge went through")
+	}
+	if lastMerged != k-1 {
 		// known: a result that MergeNoblock could not merge stays in the per-server group and
 		// is only merged by the next message; after the last message nothing merges it
-		verifrt.Finding("C06-KF2", lastFailed && total < k)
+		verifrt.Finding("C06-KF2", true)
 		return
 	}
 	verifrt.Reach("all-merged")
